@@ -195,35 +195,6 @@ func runC06(r *an.Run) {
 		})
 
 	statusWriters(r)
-}
-
-func statusWriters(r *an.Run) {
-	p := r.Prog
-	r.Obl("status-writers-use-disk-copy", "ROLE",
-		"every putOpenChannel call outside the initial full sync and the closed-channel archive passes the channel value returned by fetchOpenChannel in the same transaction, never the caller's in-memory handle",
-		"putOpenChannel rewrites both commitments and the revocation state; writing a stale in-memory handle rolls the durable commitment back behind secrets that were already released", 7,
-		func(o *an.Obl) {
-			n := 0
-			for _, f := range p.Funcs(false, "channeldb") {
-				for _, s := range f.Calls(an.CalleeIs("channeldb.putOpenChannel"), false) {
-					root := f.Root().ID
-					a := f.ArgCanon(s)
-					o.Site("%s passes %s", s.String(), a[1])
-					if root == "channeldb.fullSyncOpenChannel" || root == "channeldb.archiveClosedChannel" {
-						continue
-					}
-					n++
-					if !strings.HasPrefix(a[1], "channeldb.fetchOpenChannel(") {
-						o.FailAt(root+"#putOpenChannel-source", s.Where(), "%s rewrites the whole channel from %s; it must write the copy it read with fetchOpenChannel in the same transaction", root, a[1])
-					}
-				}
-			}
-			if n < 6 {
-				o.FailAt("putOpenChannel#sites", "", "expected at least 6 status writers, found %d", n)
-			}
-			_ = flow.KCond
-		})
-
 	revocationAcceptance(r)
 
 	r.Obl("own-chain-indexes", "ROLE",
@@ -273,4 +244,33 @@ func statusWriters(r *an.Run) {
 				}
 			}
 		})
+}
+
+func statusWriters(r *an.Run) {
+	p := r.Prog
+	r.Obl("status-writers-use-disk-copy", "ROLE",
+		"every putOpenChannel call outside the initial full sync and the closed-channel archive passes the channel value returned by fetchOpenChannel in the same transaction, never the caller's in-memory handle",
+		"putOpenChannel rewrites both commitments and the revocation state; writing a stale in-memory handle rolls the durable commitment back behind secrets that were already released", 7,
+		func(o *an.Obl) {
+			n := 0
+			for _, f := range p.Funcs(false, "channeldb") {
+				for _, s := range f.Calls(an.CalleeIs("channeldb.putOpenChannel"), false) {
+					root := f.Root().ID
+					a := f.ArgCanon(s)
+					o.Site("%s passes %s", s.String(), a[1])
+					if root == "channeldb.fullSyncOpenChannel" || root == "channeldb.archiveClosedChannel" {
+						continue
+					}
+					n++
+					if !strings.HasPrefix(a[1], "channeldb.fetchOpenChannel(") {
+						o.FailAt(root+"#putOpenChannel-source", s.Where(), "%s rewrites the whole channel from %s; it must write the copy it read with fetchOpenChannel in the same transaction", root, a[1])
+					}
+				}
+			}
+			if n < 6 {
+				o.FailAt("putOpenChannel#sites", "", "expected at least 6 status writers, found %d", n)
+			}
+			_ = flow.KCond
+		})
+
 }
